@@ -10,6 +10,7 @@
 -/
 import Gts.Props.C14
 import Gts.Bridge.IoDelegateFn
+import Gts.Bridge.KeyEnc
 namespace Gts.C14
 open Gts.Cache Gts.CacheProto Gts.Bridge.IoDelegateFn
 
@@ -90,7 +91,322 @@ theorem gen_failed_run_leaves_no_entry (hy : Hyp W) {σ : Store} (hi : Inv W σ)
     ∃ e, openAt W.H W.d (genStep W σ r).1 (W.rsum r.input) (W.dsum r.cmd) = .error e := by
   rw [gen_step_eq]; exact failed_run_leaves_no_entry W hy hi r hfail
 
+/-- **A changed input (or option) misses and recomputes, in the regenerated code**: in every history of runs of the
+regenerated io.go functions from the empty directory, a run that goes past `TryCache` and whose key differs (root sum
+or data sum) from the key of every earlier run is shown the output and the status of its own body, and the protocol
+model classifies it as a MISS — `changed_key_misses` through `gen_step_eq` / `gen_history_eq`. -/
+theorem gen_changed_key_misses (hH : ∀ x, (W.H x).length = W.d) (runs : List (Run Cmd Input)) (r : Run Cmd Input)
+    (hlive : (r.nocache || !r.usable || (W.exec r.cmd r.input).early) = false)
+    (hnew : ∀ r' ∈ runs, W.rsum r.input ≠ W.rsum r'.input ∨ W.dsum r.cmd ≠ W.dsum r'.cmd) :
+    verdict W (genHistory W emptyStore runs).1 r = .miss ∧
+    (genStep W (genHistory W emptyStore runs).1 r).2 = (W.exec r.cmd r.input).observed := by
+  rw [gen_step_eq, gen_history_eq]; exact changed_key_misses W hH runs r hlive hnew
+
 /-- non-vacuity: the failing toy run has status 1 -/
 example : ((toyWorld true false).exec (toyRun false true).cmd (toyRun false true).input).status ≠ 0 := by decide
+
+/-! ## The three regenerated pieces composed (audit C14b #1)
+
+`gen_transparent` runs the regenerated PROTOCOL with an abstract payload (`W.payload`) and takes `hkey` as one
+opaque hypothesis; `Gts.Bridge.KeyEnc.generated_injective` is about the regenerated ENCODER and was used by no
+other theorem.  Here the two regenerated halves meet: the payload bytes handed to `TryCache` are what the
+regenerated `encodePayload` of io.go computes, `hkey` is DERIVED (through `generated_injective`), and the
+conclusion is about histories of the regenerated protocol functions. -/
+
+section composed
+open Gts.KeyEnc Gts.Bridge.KeyEnc
+
+/-- **the key bytes as the code of the tree computes them**: the regenerated io.go `encodePayload`
+(`Gts/Gen/KeyEnc.lean`), run with the model's strconv.QuoteToASCII and json.Marshal (the instantiation of
+`Gts/Bridge/KeyEnc.lean`), applied to the tuples as Go `tuple`s (string keys) -/
+def genPayload (p : Payload) : KeyEnc.Bytes :=
+  Gts.Gen.KeyEnc.encodePayload quoteToASCII marshalTuples (p.map keyed)
+
+/-- a world whose payload bytes ARE the output of the regenerated encoder on the tuples `pl c` of the command
+(everything else — digest, codec, command body, primary input — as in `W`) -/
+def withGenPayload (pl : Cmd → Payload) : World Cmd Input :=
+  { W with payload := fun c => genPayload (pl c) }
+
+/-- what remains ASSUMED about a world once the encoder and the protocol are the regenerated code: the payload
+handed to `TryCache` is the regenerated `encodePayload` of the tuples `pl c` (`henc`; true by construction for
+`withGenPayload`), and the three semantic parts of `hkey` that no amount of code about io.go can give —
+determinism of the body, sufficiency of the tuples, no digest collision on the keys in play. -/
+structure GenKeyParts (pl : Cmd → Payload) : Prop where
+  /-- the payload handed to `TryCache` is the REGENERATED io.go `encodePayload` of the tuples -/
+  henc : ∀ c, W.payload c = genPayload (pl c)
+  /-- **determinism**: the command body is a function of the BYTES of the primary input (and of nothing else
+  outside `Cmd`: not of the cache directory, the time, the environment — that is already in the type of `exec`) -/
+  hdet : ∀ c i i', W.content i = W.content i' → W.exec c i = W.exec c i'
+  /-- **sufficiency** (`hsuff`): the payload tuples list every option / secondary input that influences the output.
+  For `annotate / insert / infix / search` the tuple value is the DIGEST of the secondary file while `Cmd` holds its
+  contents: this hypothesis then includes "no digest collision among the secondary inputs in play" (audit C14b #4). -/
+  hsuff : ∀ c c' i, pl c = pl c' → W.exec c i = W.exec c' i
+  /-- **no digest collision** on the payload bytes in play … -/
+  hcollP : ∀ c c', W.H (W.payload c) = W.H (W.payload c') → W.payload c = W.payload c'
+  /-- … and on the primary inputs in play.  (`Cmd` / `Input` are the commands and inputs IN PLAY: with a fixed-size
+  digest these two cannot hold when `Input` is all byte strings — audit C14a F1.) -/
+  hcollC : ∀ i i', W.H (W.content i) = W.H (W.content i') → W.content i = W.content i'
+
+/-- the parts stated through the regenerated encoder are the parts of `C14.lean` (stated through the model
+encoder): `Gts.Bridge.KeyEnc.encodePayload_eq` -/
+theorem keyParts_of_gen {pl : Cmd → Payload} (hp : GenKeyParts W pl) : KeyParts W pl where
+  henc := fun c => by rw [hp.henc c]; exact encodePayload_eq (pl c)
+  hdet := hp.hdet
+  hsuff := hp.hsuff
+  hcollP := hp.hcollP
+  hcollC := hp.hcollC
+
+/-- **`hkey` for a world keyed by the regenerated encoder**: two runs with equal root sums and equal data sums
+behave alike — from determinism, sufficiency and collision-freeness, with the step "equal key BYTES, hence equal
+tuples" supplied by `generated_injective` (the injectivity theorem about the regenerated `encodePayload`). -/
+theorem gen_hkey_encoded {pl : Cmd → Payload} (hp : GenKeyParts W pl) :
+    ∀ c c' i i', W.rsum i = W.rsum i' → W.dsum c = W.dsum c' → W.exec c i = W.exec c' i' := by
+  intro c c' i i' hr hd
+  have hc : W.content i = W.content i' := hp.hcollC i i' hr
+  have hb : W.payload c = W.payload c' := hp.hcollP c c' hd
+  rw [hp.henc c, hp.henc c'] at hb
+  rw [hp.hdet c i i' hc]
+  exact hp.hsuff c c' i' (generated_injective (pl c) (pl c') hb)
+
+/-- **Transparency of the regenerated code, end to end**: in a world whose cache key is
+`digest (regenerated encodePayload (tuples of the command))` (`henc`), for ALL histories of runs of the
+regenerated io.go protocol functions (`genHistory`: `newIODelegate / TryCache / Write / Commit / Close` in the
+command frame) over a shared cache directory that starts in a state satisfying the invariant, EVERY run shows the
+output bytes and the exit status of the command body.  Composed of `generated_injective` (regenerated encoder),
+`gen_hkey_encoded` and `gen_history_eq` (regenerated protocol = `step`) and the invariant proof `transparent`.
+
+What REMAINS ASSUMED (hypotheses, not axioms): `hH` the digest has a fixed size; `hcodec` flate round-trips;
+`hcommit` `Commit()` only on runs that exit 0 (source side: `commit_last`); and in `GenKeyParts`: `hdet`
+determinism of the command body given the input bytes, `hsuff` the tuples list every option (and secondary
+input) that influences the output, `hcollP / hcollC` no digest collision on the payloads / inputs in play.
+That the key BYTES determine the tuples is NOT assumed. -/
+theorem gen_transparent_encoded {pl : Cmd → Payload} (hH : ∀ x, (W.H x).length = W.d)
+    (hcodec : ∀ w, W.inflate (W.deflate w) = some w) (hp : GenKeyParts W pl)
+    (hcommit : ∀ c i, (W.exec c i).committed = true → (W.exec c i).status = 0)
+    (runs : List (Run Cmd Input)) {σ : Store} (hi : Inv W σ) :
+    (genHistory W σ runs).2 = runs.map fun r => (W.exec r.cmd r.input).observed :=
+  gen_transparent W ⟨hH, hcodec, gen_hkey_encoded W hp, hcommit⟩ runs hi
+
+/-- a world built with `withGenPayload` has `henc` by construction: only the semantic parts are left -/
+theorem genKeyParts_withGenPayload {pl : Cmd → Payload}
+    (hdet : ∀ c i i', W.content i = W.content i' → W.exec c i = W.exec c i')
+    (hsuff : ∀ c c' i, pl c = pl c' → W.exec c i = W.exec c' i)
+    (hcollP : ∀ c c', W.H (genPayload (pl c)) = W.H (genPayload (pl c')) → genPayload (pl c) = genPayload (pl c'))
+    (hcollC : ∀ i i', W.H (W.content i) = W.H (W.content i') → W.content i = W.content i') :
+    GenKeyParts (withGenPayload W pl) pl :=
+  ⟨fun _ => rfl, hdet, hsuff, hcollP, hcollC⟩
+
+end composed
+
+/-! ## A world with two inputs and several commands (audit C14a F2 / F6)
+
+Every world that inhabited `Hyp` / `KeyParts` so far had `Input = Unit`: "a changed input misses the cache" was
+never instantiated.  `sortWorld` has THREE primary inputs (two well-formed ones that differ in one line, one that
+makes the command fail) and FOUR commands (`gts sort` with / without `--reverse`, two output file types), its key
+is `digest (regenerated encodePayload (tuples))` with the tuples of sort.go, the digest is a real function of all
+the bytes (a two-byte Fletcher checksum — NOT collision-free in general: `hcollP / hcollC` are PROVED on this
+universe, by evaluation), the codec is not the identity.  The command BODY is a stand-in written here (records =
+lines, ordered by length as `byLength.Less` orders records, a byte ≥ 0x80 is a parse error), not the Go body of
+sort.go: what the instance shows is that the hypotheses of `gen_transparent_encoded` are jointly satisfiable by a
+world in which inputs and option values really change the output, and that misses / hits fall where the
+property says. -/
+
+section sortworld
+open Gts.KeyEnc Gts.Bridge.KeyEnc
+
+/-- a two-byte checksum (Fletcher): the sum of the bytes and the sum of the running sums, mod 256 -/
+def sumH (x : Cache.Bytes) : Cache.Bytes :=
+  let p := x.foldl (fun (a : UInt8 × UInt8) b => (a.1 + b, a.2 + (a.1 + b))) (0, 0)
+  [p.1, p.2]
+
+theorem sumH_size : ∀ x, (sumH x).length = 2 := fun _ => rfl
+
+/-- the primary inputs in play -/
+inductive SortInput where
+  | recA | recB | bad
+  deriving DecidableEq, Repr
+
+/-- their bytes: `recB` is `recA` with the last record changed; `bad` holds a byte no record may hold -/
+def SortInput.content : SortInput → Cache.Bytes
+  | .recA => ascii "ab\ncdef\ng\n"
+  | .recB => ascii "ab\ncdef\nhi\n"
+  | .bad => [0x61, 0xFF, 0x0A]
+
+/-- the records of an input: its lines -/
+def splitLines : Cache.Bytes → Cache.Bytes → List Cache.Bytes
+  | [], cur => if cur = [] then [] else [cur.reverse]
+  | b :: r, cur => if b = 10 then cur.reverse :: splitLines r [] else splitLines r (b :: cur)
+
+def insertLine (before : Cache.Bytes → Cache.Bytes → Bool) (x : Cache.Bytes) :
+    List Cache.Bytes → List Cache.Bytes
+  | [] => [x]
+  | y :: r => if before x y then x :: y :: r else y :: insertLine before x r
+
+/-- stable insertion sort -/
+def sortLines (before : Cache.Bytes → Cache.Bytes → Bool) : List Cache.Bytes → List Cache.Bytes
+  | [] => []
+  | x :: r => insertLine before x (sortLines before r)
+
+/-- the stand-in body of `gts sort` for the command `(reverse, fasta)`, a function of the input BYTES: a byte
+≥ 0x80 is an error (nothing written, status 1, `Commit()` not reached); otherwise the records longest first
+(`--reverse`: shortest first), each followed by a newline and, for the second file type, preceded by `>` -/
+def sortBody (c : Bool × Bool) (x : Cache.Bytes) : Outcome :=
+  if x.any (fun b => b ≥ 128) then { out := [], status := 1, committed := false, early := false }
+  else
+    let ls := sortLines (fun a b => if c.1 then a.length ≤ b.length else b.length ≤ a.length) (splitLines x [])
+    { out := (ls.map fun l => (if c.2 then [62] else []) ++ l ++ [10]).flatten, status := 0, committed := true,
+      early := false }
+
+/-- the tuples of sort.go:65-70 (`command`, `version`, `reverse`, `filetype`), values filled in -/
+def sortTuples (c : Bool × Bool) : Payload :=
+  [(ascii "command", .str (ascii "gts-sort")), (ascii "version", .str (ascii "0.28.1")),
+   (ascii "reverse", .bool c.1), (ascii "filetype", .int (if c.2 then 1 else 0))]
+
+/-- the keys are those of the regenerated command table -/
+example : ∀ a b, (sortTuples (a, b)).map (·.1) =
+    ((Gts.Gen.Cli.commands.filter (·.name == "sort")).flatMap (·.payload)).map fun t => ascii t.key := by decide
+
+/-- everything but the payload -/
+def sortBase : World (Bool × Bool) SortInput where
+  H := sumH
+  d := 2
+  deflate := fun w => 0x78 :: w
+  inflate := fun b => match b with | 0x78 :: w => some w | _ => none
+  inflatePrefix := fun _ => []
+  exec := fun c i => sortBody c i.content
+  payload := fun _ => []
+  content := SortInput.content
+
+/-- **the world**: the payload bytes are the regenerated `encodePayload` of the tuples -/
+def sortWorld : World (Bool × Bool) SortInput := withGenPayload sortBase sortTuples
+
+def sortRun (reverse fasta : Bool) (i : SortInput) : Run (Bool × Bool) SortInput :=
+  ⟨(reverse, fasta), i, false, false, true, true⟩
+
+set_option maxRecDepth 100000 in
+/-- **`sortWorld` meets every part of `GenKeyParts`** — `henc` by construction, determinism because the body is a
+function of the bytes, sufficiency and the two collision hypotheses by evaluation on the four commands and the
+three inputs -/
+theorem sortWorld_parts : GenKeyParts sortWorld sortTuples :=
+  genKeyParts_withGenPayload sortBase
+    (fun c _ _ h => congrArg (sortBody c) h)
+    (by
+      intro c c' i h
+      have : c = c' := by
+        rcases c with ⟨a, b⟩; rcases c' with ⟨a', b'⟩
+        revert h; cases a <;> cases b <;> cases a' <;> cases b' <;> decide
+      rw [this])
+    (by
+      intro c c' h
+      have : c = c' := by
+        rcases c with ⟨a, b⟩; rcases c' with ⟨a', b'⟩
+        revert h; cases a <;> cases b <;> cases a' <;> cases b' <;> decide
+      rw [this])
+    (by intro i i' h; revert h; cases i <;> cases i' <;> decide)
+
+/-- **`sortWorld` meets every hypothesis of `transparent` / `gen_transparent`** (`Hyp`): digest size, codec round
+trip, `hkey` (derived: `gen_hkey_encoded`), `Commit()` only on success -/
+theorem sortWorld_hyp : Hyp sortWorld where
+  hH := sumH_size
+  hcodec := fun _ => rfl
+  hkey := gen_hkey_encoded sortWorld sortWorld_parts
+  hcommit := by
+    intro c i h
+    change (sortBody c i.content).committed = true at h
+    change (sortBody c i.content).status = 0
+    unfold sortBody at h ⊢
+    split at h
+    · cases h
+    · rw [if_neg (by assumption)]
+
+/-- which way every run of a history goes -/
+def verdicts : Store → List (Run Cmd Input) → List Verdict
+  | _, [] => []
+  | σ, r :: rs => verdict W σ r :: verdicts (step W σ r).1 rs
+
+/-- the history of the examples: base; the CHANGED INPUT; base again; the changed OPTION (`--reverse`); the other
+file type; the failing input, twice; the second input again, to a file (`-o`); and once more -/
+def sortHistory : List (Run (Bool × Bool) SortInput) :=
+  [sortRun false false .recA, sortRun false false .recB, sortRun false false .recA, sortRun true false .recA,
+   sortRun false true .recA, sortRun false false .bad, sortRun false false .bad,
+   { sortRun false false .recB with toFile := true }, sortRun false false .recB]
+
+/-- **Transparency of the regenerated code in `sortWorld`, for ALL histories** — `gen_transparent_encoded` with
+every hypothesis discharged: the instance of the end-to-end theorem that is not a toy (several inputs, several
+commands, key = digest of the regenerated encoder's bytes). -/
+theorem sortWorld_transparent (runs : List (Run (Bool × Bool) SortInput)) :
+    (genHistory sortWorld emptyStore runs).2 = runs.map fun r => (sortWorld.exec r.cmd r.input).observed :=
+  gen_transparent_encoded sortWorld sortWorld_hyp.hH sortWorld_hyp.hcodec sortWorld_parts sortWorld_hyp.hcommit
+    runs (inv_empty _)
+
+/-- non-vacuity of `keyParts_of_gen`, `gen_hkey_encoded`, `gen_transparent_encoded` (`sortWorld_transparent` is
+the instance): `sortWorld` meets `GenKeyParts`, hence the `KeyParts` of `C14.lean`, and `hkey` holds in it although
+inputs and commands really matter -/
+example : KeyParts sortWorld sortTuples ∧
+    (∀ c c' i i', sortWorld.rsum i = sortWorld.rsum i' → sortWorld.dsum c = sortWorld.dsum c' →
+      sortWorld.exec c i = sortWorld.exec c' i') ∧
+    sortWorld.exec (false, false) .recA ≠ sortWorld.exec (false, false) .recB ∧
+    sortWorld.exec (false, false) .recA ≠ sortWorld.exec (true, false) .recA :=
+  ⟨keyParts_of_gen _ sortWorld_parts, gen_hkey_encoded _ sortWorld_parts, by decide, by decide⟩
+
+set_option maxRecDepth 100000 in
+/-- **A changed input misses, a changed option misses, the same input and command hits** (the clause of the
+property, instantiated): after `gts sort` on input A from the empty directory,
+  * the same command on input B (one record changed) is a MISS and shows B's own output (recomputed), which is not
+    A's output — a hit on A's entry would have been wrong;
+  * `gts sort --reverse` on input A is a MISS and shows the reversed order, which is not the first run's output;
+  * `gts sort` on input A again is a HIT and shows the first run's bytes with status 0. -/
+theorem sortWorld_changed_input_misses :
+    let σ₁ := (step sortWorld emptyStore (sortRun false false .recA)).1
+    verdict sortWorld emptyStore (sortRun false false .recA) = .miss ∧
+    verdict sortWorld σ₁ (sortRun false false .recB) = .miss ∧
+    (step sortWorld σ₁ (sortRun false false .recB)).2 = (sortWorld.exec (false, false) .recB).observed ∧
+    (sortWorld.exec (false, false) .recB).observed ≠ (sortWorld.exec (false, false) .recA).observed ∧
+    verdict sortWorld σ₁ (sortRun true false .recA) = .miss ∧
+    (step sortWorld σ₁ (sortRun true false .recA)).2 = (sortWorld.exec (true, false) .recA).observed ∧
+    (sortWorld.exec (true, false) .recA).observed ≠ (sortWorld.exec (false, false) .recA).observed ∧
+    verdict sortWorld σ₁ (sortRun false false .recA) = .hit ∧
+    (step sortWorld σ₁ (sortRun false false .recA)).2 = ⟨ascii "cdef\nab\ng\n", 0⟩ := by
+  decide
+
+set_option maxRecDepth 100000 in
+/-- **Where the runs of a nine-run history go**: base MISS, changed input MISS, base HIT, `--reverse` MISS, other
+file type MISS, failing input MISS, the failing input again MISS (the failed run left no entry), changed input
+with `-o` HIT (and the entry is removed), the changed input once more MISS. -/
+theorem sortWorld_verdicts :
+    verdicts sortWorld emptyStore sortHistory =
+      [.miss, .miss, .hit, .miss, .miss, .miss, .miss, .hit, .miss] := by decide
+
+/-- … and what the user sees in that history (of the regenerated code) is what the bodies produce: three hits
+/ re-runs of the base command show `cdef ab g`, the changed input `cdef ab hi`, `--reverse` `g ab cdef`, the
+failing input nothing and status 1 both times -/
+example : (genHistory sortWorld emptyStore sortHistory).2 =
+    [⟨ascii "cdef\nab\ng\n", 0⟩, ⟨ascii "cdef\nab\nhi\n", 0⟩, ⟨ascii "cdef\nab\ng\n", 0⟩,
+     ⟨ascii "g\nab\ncdef\n", 0⟩, ⟨ascii ">cdef\n>ab\n>g\n", 0⟩, ⟨[], 1⟩, ⟨[], 1⟩,
+     ⟨ascii "cdef\nab\nhi\n", 0⟩, ⟨ascii "cdef\nab\nhi\n", 0⟩] := by
+  rw [sortWorld_transparent]; decide
+
+/-- non-vacuity of `changed_content_misses` / `gen_changed_key_misses`: in `sortWorld`, after three runs on input A
+(two commands), the base command on input B — whose BYTES differ from A's — misses and shows B's own output -/
+example :
+    verdict sortWorld (history sortWorld emptyStore
+        [sortRun false false .recA, sortRun true false .recA, sortRun false false .recA]).1
+      (sortRun false false .recB) = .miss ∧
+    (step sortWorld (history sortWorld emptyStore
+        [sortRun false false .recA, sortRun true false .recA, sortRun false false .recA]).1
+      (sortRun false false .recB)).2 = (sortWorld.exec (false, false) .recB).observed :=
+  changed_content_misses sortWorld sumH_size sortWorld_parts.hcollC _ (sortRun false false .recB) rfl (by decide)
+
+set_option maxRecDepth 100000 in
+example :
+    (genStep sortWorld (genHistory sortWorld emptyStore [sortRun false false .recA, sortRun true false .recA]).1
+      (sortRun false false .recB)).2 = ⟨ascii "cdef\nab\nhi\n", 0⟩ :=
+  (gen_changed_key_misses sortWorld sumH_size _ (sortRun false false .recB) rfl (by decide)).2.trans (by decide)
+
+/-- the collision hypotheses are NOT true of the digest in general (they are proved on the universe of
+`sortWorld` only): the checksum collides on other byte strings -/
+example : sumH [1, 0, 1] = sumH [0, 2, 0] ∧ ([1, 0, 1] : Cache.Bytes) ≠ [0, 2, 0] := by decide
+
+end sortworld
 
 end Gts.C14
